@@ -26,7 +26,13 @@ pub fn def() -> PropertyDef {
 }
 
 fn generators(cfg: &Cfg) -> Vec<Generator> {
-    vec![Generator { name: "format", total: fmtwork::total(cfg), run: run_format, case_cpu_limit_s: 3 * fmtwork::CPU_BUDGET_S }]
+    // every case is formatted up to three times and re-formatted in four variants: the thorough tier takes a third of the
+    // shared workload's cases (every third one, the offset moving with the seed), or it runs for more than two hours
+    let total = match cfg.tier {
+        | Tier::Quick => fmtwork::total(cfg),
+        | Tier::Thorough => fmtwork::total(cfg) / 3,
+    };
+    vec![Generator { name: "format", total, run: run_format, case_cpu_limit_s: 3 * fmtwork::CPU_BUDGET_S }]
 }
 
 fn first_difference(a: &str, b: &str) -> String {
@@ -38,6 +44,10 @@ fn first_difference(a: &str, b: &str) -> String {
 }
 
 fn run_format(cfg: &Cfg, index: u64, stats: &mut Stats) {
+    let index = match cfg.tier {
+        | Tier::Quick => index,
+        | Tier::Thorough => (index * 3 + cfg.seed % 3).min(fmtwork::total(cfg) - 1),
+    };
     let case = fmtwork::case(cfg, index);
     stats.evaluations += 1;
     if case.deep() {
